@@ -1,4 +1,5 @@
 import Tau.Solver
+import Tau.Proofs.FloatOrder
 /-
   C09 — Numeric comparisons and casts are order-correct and overflow-safe.
 
@@ -91,6 +92,30 @@ theorem float_le_union (a b : Nat) : F64.le a b = (F64.lt a b || F64.eq a b) := 
     · simp [h2]
     · have : ¬ (F64.key a ≤ F64.key b) := by omega
       simp [h2, this]
+
+/-- **The comparison on doubles IS the mathematical relation on their real values.** `F64.scaled b`
+    is the real value of the pattern `b` times 2^1074 (an exact integer: ±mant·2^(e-1) with the
+    implicit bit, both zeros 0, infinity beyond every finite value); `<`, `=`, `<=` on the engine's
+    order key hold exactly when they hold between those values (Tau/Proofs/FloatOrder.lean:
+    `mag_lt_iff` — the bit pattern orders like (exponent, mantissa), which orders like the value). -/
+theorem float_lt_real (a b : Nat) :
+    F64.lt a b = true ↔ F64.isNaN a = false ∧ F64.isNaN b = false ∧ F64.scaled a < F64.scaled b := by
+  simp only [F64.lt, Bool.and_eq_true, Bool.not_eq_true', decide_eq_true_eq, F64.key_lt_iff, and_assoc]
+
+theorem float_eq_real (a b : Nat) :
+    F64.eq a b = true ↔ F64.isNaN a = false ∧ F64.isNaN b = false ∧ F64.scaled a = F64.scaled b := by
+  simp only [F64.eq, Bool.and_eq_true, Bool.not_eq_true', beq_iff_eq, F64.key_eq_iff, and_assoc]
+
+theorem float_le_real (a b : Nat) :
+    F64.le a b = true ↔ F64.isNaN a = false ∧ F64.isNaN b = false ∧ F64.scaled a ≤ F64.scaled b := by
+  simp only [F64.le, Bool.and_eq_true, Bool.not_eq_true', decide_eq_true_eq, F64.key_le_iff, and_assoc]
+
+/-- Sanity of `scaled` (tests, not theorems about all inputs): 1.0, -2.5, the smallest subnormal,
+    the two zeros, and +inf above the largest finite double. -/
+example : F64.scaled 0x3FF0000000000000 = 2 ^ 1074 := by decide +kernel
+example : F64.scaled 0xC004000000000000 * 2 = -5 * 2 ^ 1074 := by decide +kernel
+example : F64.scaled 1 = 1 ∧ F64.scaled 0 = 0 ∧ F64.scaled 0x8000000000000000 = 0 := by decide
+example : F64.scaled 0x7FEFFFFFFFFFFFFF < F64.scaled 0x7FF0000000000000 := by decide +kernel
 
 /-- A NaN operand makes every comparison false. -/
 theorem float_nan_false (a b : Nat) (h : F64.isNaN a = true ∨ F64.isNaN b = true) :
